@@ -298,7 +298,7 @@ PROPS.update({
                    'assumed not to mutate the description; add_system / add_agent are events here (their own contracts '
                    'are C01 / C04); call sites are keyed by source-order ordinal.',
         functions=['Decode.Decoder.decode', 'Decode.Decoder.str_to_class', 'Decode.Decoder.str_to_func',
-                   'Decode.Decoder.get_module_name'],
+                   'Decode.Decoder.get_module_name', 'Decode.JsonDecoder.open_file'],
         assumptions=['the decoded description is well-formed (required keys present) and tree-shaped',
                      'hooks and decode classmethods do not mutate the description',
                      'getattr(sys.modules[m], n, None) is a function of (m, n)']),
@@ -408,27 +408,48 @@ for _cid in PROPS:
 # states nothing about them.  They are verified by the same check with their whole contract (every tag counts),
 # so a change inside one of them is noticed by every property that leans on it (pyvc/cli.py refuses a plan whose
 # call-site hypotheses are not closed under this relation).
+SCHED = ['Core.SystemManager.__init__', 'Core.SystemManager.add_system', 'Core.SystemManager.remove_system',
+         'Core.System.__init__', 'Core.System.clean_up']
+ENVW = ['Core.Environment.__init__', 'Core.Environment.add_agent', 'Core.Environment.remove_agent',
+        'Core.SystemManager.register_component', 'Core.SystemManager.deregister_component',
+        'Core.Agent.__init__', 'Core.Agent.add_component', 'Core.Agent.remove_component']
+SPACEW = ['Environments.SpaceWorld.__init__', 'Environments.SpaceWorld.add_agent', 'Environments.SpaceWorld.remove_agent',
+          'Environments.SpaceWorld.move', 'Environments.SpaceWorld.move_to', 'Environments.PositionComponent.__init__',
+          'Core.Agent.has_component']
+GRIDW = ['Environments.discrete_grid_pos_to_id', 'Environments.DiscreteWorld.__init__', 'Environments.LineWorld.__init__',
+         'Environments.GridWorld.__init__', 'Environments.DiscreteWorld.add_cell_component',
+         'Environments.DiscreteWorld.remove_cell_component', 'Environments.ConstantGenerator.__call__',
+         'Environments.LookupGenerator.__call__', 'Core.Environment.__init__']
+# A property also leans on the representation invariants its functions *require* (SM_rep, Env_rep / PoolsMirror, InWorld,
+# Grid_rep): every function that re-establishes such an invariant is verified by the same check (SCHED / ENVW / SPACEW /
+# GRIDW below), otherwise a writer that breaks the invariant would only be reported under the property that owns it.
 DEPS = {
-    # collectors are systems: their constructors must hand the declared window on to System.__init__
-    # ... and "exactly once" must survive systems that edit the system set mid-timestep (the general user-code view)
-    'C02': ['Core.Environment.__init__', 'Collectors.Collector.__init__', 'Collectors.AgentCollector.__init__',
-            'Collectors.FileCollector.__init__', 'Core.SystemManager.execute_systems#dynamic'],
-    'C06': ['Core.Environment.__init__', 'Core.SystemManager.__init__'],
-    'C07': ['Core.Environment.__init__', 'Core.SystemManager.__init__', 'Core.Agent.has_component',
-            'Core.Environment.get_agents'],
+    # collectors are systems: their constructors must hand the declared window on to System.__init__; "exactly once" must
+    # survive systems that edit the system set mid-timestep (the general user-code view)
+    'C01': ['Core.System.clean_up'],
+    'C02': SCHED + ['Core.Environment.__init__', 'Collectors.Collector.__init__', 'Collectors.AgentCollector.__init__',
+                    'Collectors.FileCollector.__init__', 'Core.SystemManager.execute_systems#dynamic'],
     'C04': ['Core.SystemManager.register_component', 'Core.SystemManager.deregister_component',
             'Core.Agent.add_component', 'Core.Agent.remove_component'],
-    'C08': ['Core.Environment.__init__', 'Core.Environment.add_agent', 'Core.Environment.remove_agent',
-            'Core.SystemManager.register_component', 'Core.SystemManager.deregister_component',
-            'Core.Agent.add_component', 'Core.Agent.remove_component', 'Core.Agent.has_component'],
-    'C09': ['Core.Environment.__init__'],
+    'C05': SCHED,
+    'C06': SCHED + ['Core.Environment.__init__'],
+    'C07': ENVW + ['Core.SystemManager.__init__', 'Core.Agent.has_component', 'Core.Environment.get_agents',
+                   'Batching._build_model_from_kwargs#impl'],
+    'C08': ENVW + ['Core.Agent.has_component'],
+    'C09': GRIDW,
+    'C10': GRIDW,
+    'C11': GRIDW,
+    'C12': ENVW + SPACEW,
+    'C13': ENVW,
     'C15': ['Core.Model.execute', 'Core.SystemManager.execute_systems', 'Core.SystemManager.__getitem__',
-            'Batching.ParameterList.build'],
-    'C16': ['Batching.ParameterList.build'],
+            'Batching.ParameterList.build', 'Batching._build_model_from_kwargs#impl'],
+    'C16': ['Batching.ParameterList.build', 'Batching._build_model_from_kwargs#impl'],
+    # collectors observe the state left by the timestep's systems: that is the scheduler's order (C01) and, for systems
+    # that edit the system set, its dynamic view (C05)
+    'C17': SCHED + ['Core.SystemManager.execute_systems', 'Core.SystemManager.execute_systems#dynamic'],
     # decode treats registration / joining as lifecycle events (abstract view); that the decoded model then *contains*
     # the listed systems with their declared scheduling, and the agents, is the contract of these functions
-    'C18': ['Core.System.__init__', 'Core.SystemManager.add_system', 'Core.Environment.add_agent',
-            'Core.SystemManager.register_component'],
+    'C18': SCHED + ['Core.Environment.add_agent', 'Core.SystemManager.register_component'],
 }
 for _cid, _d in DEPS.items():
     PROPS[_cid]['deps'] = _d
